@@ -10,6 +10,7 @@ import (
 	"bytes"
 	"fmt"
 	"sort"
+	"sync"
 	"time"
 )
 
@@ -31,7 +32,10 @@ type VerifStore struct {
 	Flusher bool // has a flusher goroutine (autoFlushCache)
 	Dead    bool // goroutine stopped / files closed
 	Seq     int
+	goid    int64 // goroutine id of the flusher
 }
+
+var verifMu sync.Mutex // guards verifStores (flusher goroutines register themselves concurrently)
 
 // VerifFuelExhausted is the panic value raised when an operation fetches more
 // pages than its fuel allows (cycle in the page graph, unbounded recursion).
@@ -79,7 +83,17 @@ func VerifInstall(manualClock bool, leafCap, internalCap, cacheCap int) {
 		if verifCacheCap > 0 {
 			f.cache = NewLRU(verifCacheCap)
 		}
+		verifMu.Lock()
 		verifStores = append(verifStores, &VerifStore{fs: f, Path: f.file.Name(), Seq: len(verifStores)})
+		verifMu.Unlock()
+	}
+	vhFlusherStart = func(f *fileStore) {
+		g := verifGoid()
+		if s := verifStoreOf(f); s != nil {
+			verifMu.Lock()
+			s.goid = g
+			verifMu.Unlock()
+		}
 	}
 	vhTickerCreated = func(f *fileStore) {
 		s := verifStoreOf(f)
@@ -140,6 +154,8 @@ func VerifInstall(manualClock bool, leafCap, internalCap, cacheCap int) {
 }
 
 func verifStoreOf(f *fileStore) *VerifStore {
+	verifMu.Lock()
+	defer verifMu.Unlock()
 	for i := len(verifStores) - 1; i >= 0; i-- {
 		if verifStores[i].fs == f {
 			return verifStores[i]
@@ -158,10 +174,18 @@ func VerifSetFuel(n int64) { verifFuel = n }
 func VerifFetchCount() int64 { return verifFetches }
 
 // VerifStores lists every store created since VerifInstall.
-func VerifStores() []*VerifStore { return verifStores }
+func VerifStores() []*VerifStore {
+	verifMu.Lock()
+	defer verifMu.Unlock()
+	return append([]*VerifStore{}, verifStores...)
+}
 
 // VerifForgetStores drops the tracking list (between executions).
-func VerifForgetStores() { verifStores = nil }
+func VerifForgetStores() {
+	verifMu.Lock()
+	verifStores = nil
+	verifMu.Unlock()
+}
 
 // VerifStoreOf returns the tracked store behind a relation service.
 func VerifStoreOf(rs *RelationService) *VerifStore {
